@@ -143,7 +143,7 @@ def call_builtin(ex, name: str, args, kwargs, st: State, node) -> Term:
             if o.kind == "obj" and o.cls is not None and o.cls.lookup("__len__") and isinstance(o.cls.lookup("__len__")[1], FuncInfo):
                 return ex.call_function(o.cls.lookup("__len__")[1], [a], {}, st, node, self_term=a)
             return mk("len", a, o.version)
-        if a.op == "tuple":
+        if a.op in ("tuple", "sbytes"):
             return C(len(a.args[0]))
         return mk("len", a)
     if name in ("range", "xrange"):
@@ -233,6 +233,14 @@ def call_builtin(ex, name: str, args, kwargs, st: State, node) -> Term:
             return r
         a = A[0]
         o = ex.obj(st, a)
+        if a.op == "sbytes":
+            return a
+        if ex.sym_bytes and n == 1 and not kwargs:
+            its = ex.iter_items(a, st)
+            if its is not None:
+                from .exprs import sbytes
+
+                return sbytes(its)
         if o is not None and o.kind == "bytearray":
             res = mk("call", mk("builtin", "bytes"), (mk("snap", a, o.version),), (), 0)
             ex.emit("extcall", node, st, name="bytes", recv=None, args=(a,), kwargs={}, result=res, pure=True, snapshot_of=o.clone())
@@ -420,6 +428,8 @@ def _isinstance(ex, v: Term, c: Term, st: State) -> Term:
                         r = False
                 elif v.op == "tuple":
                     r = pyt in (tuple, object)
+                elif v.op == "sbytes":
+                    r = pyt in (bytes, object)
                 else:
                     from .types import type_of
 
